@@ -4,23 +4,62 @@ package main
 
 import (
 	"os"
+	"runtime"
+	"strconv"
+	"syscall"
 
 	"github.com/rs/zerolog"
+	"golang.org/x/sys/unix"
 
 	"github.com/basekick-labs/arc/internal/verifsim/simkit"
 )
 
+// pinSelf re-executes the binary with a CPU affinity of two cores. Every
+// compaction job opens its own DuckDB instance (as the real subprocess does),
+// and DuckDB sizes its thread pool from the affinity mask: with all cores
+// visible each open spawns/joins a pool per job, which dominates the run time
+// (and collapses when the machine is shared with other workers). The
+// simulation itself is single-threaded, so nothing is lost.
+func pinSelf() {
+	if os.Getenv("VERIF_PINNED") != "" || os.Getenv("VERIF_NOPIN") != "" {
+		return
+	}
+	n := runtime.NumCPU()
+	if n <= 2 {
+		return
+	}
+	w := os.Getpid()
+	for i, a := range os.Args {
+		if (a == "-worker" || a == "--worker") && i+1 < len(os.Args) {
+			if v, err := strconv.Atoi(os.Args[i+1]); err == nil {
+				w = v * 2
+			}
+		}
+	}
+	runtime.LockOSThread()
+	var set unix.CPUSet
+	set.Set(w % n)
+	set.Set((w + 1) % n)
+	if err := unix.SchedSetaffinity(0, &set); err != nil {
+		return
+	}
+	exe, err := os.Executable()
+	if err != nil {
+		return
+	}
+	env := append(os.Environ(), "VERIF_PINNED=1")
+	syscall.Exec(exe, os.Args, env) // returns only on failure: continue unpinned
+}
+
 func main() {
+	pinSelf()
 	zerolog.SetGlobalLevel(zerolog.Disabled)
 	if os.Getenv("VERIF_LOG") != "" {
 		zerolog.SetGlobalLevel(zerolog.DebugLevel)
 	}
-	if os.Getenv("VERIF_BENCH") != "" {
-		benchDuck()
-		return
-	}
 	installHooks()
 	simkit.Main(
 		&simkit.Check{ID: "C09", Gen: genC09, New: func() any { return &C09Plan{} }, Run: runC09, Shrink: shrinkC09, Desc: descC09},
+		&simkit.Check{ID: "C11", Gen: genC11, New: func() any { return &C11Plan{} }, Run: runC11, Shrink: shrinkC11, Desc: descC11},
 	)
 }
